@@ -425,7 +425,7 @@ func perturb(rng *hx.Rng, t *gt) string {
 				}
 			}
 		case 6: // two fields whose names differ in case only
-			if p.k == gStruct {
+			if p.k == gStruct && len(p.fields) > 0 {
 				f := p.fields[rng.Intn(len(p.fields))]
 				if len(f.name) > 1 {
 					nm := recase(rng, f.name)
@@ -972,6 +972,9 @@ type c20env struct {
 	cf     *hx.Cases
 	defect bool // switch map_value_into_key observed on
 	keeps  bool // switch map_keeps_old_entries observed on
+	// built: how the source value of the next evaluate was laid out in memory when its parts
+	// share storage (c20alias.go); part of the failure report, "" for separately allocated parts
+	built string
 }
 
 func (e *c20env) emit(t1, t2 *gt, canon string, comp, other bool, resTerm, oldTerm, desc string) {
@@ -995,6 +998,9 @@ func (e *c20env) evaluate(t1, t2 *gt, src, dst reflect.Value, dirty bool, kind s
 	o := convertInto(dst, src, byPtr)
 	canon := coqVal(t1, src)
 	desc := fmt.Sprintf("%s: %s -> %s, value %s%s", kind, t1, t2, canon, oldDesc)
+	if e.built != "" {
+		desc += " [the source shares storage: " + e.built + "]"
+	}
 	comp := compatGo(t1, t2)
 	other := otherKindReached(t2, t1, src, false)
 	known := e.defect && hasNonEmptyMap(t1, src)
@@ -1087,7 +1093,7 @@ func (e *c20env) evaluate(t1, t2 *gt, src, dst reflect.Value, dirty bool, kind s
 		res.Dist("other-kind-reached")
 	}
 	nontrivial := t1.hasMap() || (t1.depth() >= 2)
-	res.Count(t1.coq()+"|"+t2.coq()+"|"+canon+"|"+oldTerm, nontrivial)
+	res.Count(t1.coq()+"|"+t2.coq()+"|"+canon+"|"+oldTerm+e.built, nontrivial)
 	res.Dist("pair:" + kind)
 	res.Dist(fmt.Sprintf("depth:%d", t1.depth()))
 	if t1.hasMap() {
@@ -1114,7 +1120,12 @@ func (e *c20env) evaluate(t1, t2 *gt, src, dst reflect.Value, dirty bool, kind s
 // c20GenPair draws a (source type, target type) pair: compatible by construction, then left as
 // it is or moved out of the compatible fragment at one place
 func c20GenPair(rng *hx.Rng, depth int) (*gt, *gt, string) {
-	t1 := c20GenType(rng, depth)
+	return c20GenPairFrom(rng, c20GenType(rng, depth))
+}
+
+// c20GenPairFrom: the same for a given source type (no node of t1 may occur twice in it: the
+// edits are made in place)
+func c20GenPairFrom(rng *hx.Rng, t1 *gt) (*gt, *gt, string) {
 	t2 := widen(rng, t1)
 	kind := "compatible"
 	switch r := rng.Intn(10); {
@@ -1164,12 +1175,21 @@ func c20GenPair(rng *hx.Rng, depth int) (*gt, *gt, string) {
 // first conversion) or filled with an arbitrary value of its type, stale elements behind the
 // length of its slices included; the following sources are biased to nil / empty / shorter
 // containers and fewer keys, so that whatever the destination held has to go away.
-func (e *c20env) reusedDestination() {
+func (e *c20env) reusedDestination() { e.reusedDestinationOf(false) }
+
+// shared = true: the types come from c20GenSharingPair and every source is rebuilt with storage
+// shared between its parts (c20alias.go)
+func (e *c20env) reusedDestinationOf(shared bool) {
 	rng := e.rng
 	var t1, t2 *gt
 	var kind string
 	for try := 0; ; try++ {
-		t1, t2, kind = c20GenPair(rng, rng.Pick(1, 1, 2, 2, 2, 3))
+		if shared {
+			t1, t2, kind = c20GenSharingPair(rng)
+			kind = "shared:" + kind
+		} else {
+			t1, t2, kind = c20GenPair(rng, rng.Pick(1, 1, 2, 2, 2, 3))
+		}
 		if try >= 4 || (t2.k >= gSlice && (compatGo(t1, t2) || rng.Chance(0.3))) {
 			break
 		}
@@ -1186,12 +1206,18 @@ func (e *c20env) reusedDestination() {
 	steps := 2 + rng.Intn(2)
 	for i := 0; i < steps; i++ {
 		src := reflect.New(t1.rtype()).Elem()
-		genValOpt(rng, t1, src, false, 2, vopt{small: i == 1 || (i > 1 && rng.Bool())})
+		if shared {
+			src = e.sharedSource(t1, vopt{small: i >= 1 && rng.Chance(0.3)})
+		} else {
+			genValOpt(rng, t1, src, false, 2, vopt{small: i == 1 || (i > 1 && rng.Bool())})
+		}
 		k := kind
 		if dirty {
 			k = "reused:" + kind
 		}
-		if !e.evaluate(t1, t2, src, dst, dirty, k) {
+		ok := e.evaluate(t1, t2, src, dst, dirty, k)
+		e.built = ""
+		if !ok {
 			// after an error the destination is half written in map iteration order: not a reproducible starting point
 			return
 		}
@@ -1205,13 +1231,15 @@ func runC20(res *hx.Result, rng *hx.Rng, tier string, outdir string) {
 		"(class change, narrowing, sign change, missing/extra/ambiguous field) for the rest; the destination is fresh, or re-used: left by an earlier conversion " +
 		"into the same variable or filled with an arbitrary value (stale elements behind slice lengths included), with later sources biased to empty/shorter containers; " +
 		"plus struct types declared in Go source that are different and print the same reflect String(), converted one after the other in this process; " +
+		"plus sources whose parts share storage (types holding one slice or map type at several places: rows, fields, map elements; a slice laid out as the same piece, " +
+		"a prefix, a longer piece or a window of the array of an earlier one, a map as the very map met earlier), into fresh and re-used destinations; " +
 		"non-trivial = the source type contains a map or a container nested in a container; distinct by sha256 of (types, canonical value, previous content)"
 	// hx.NewRng(seed) and hx.NewRng(seed+1) produce the same stream shifted by one draw (the seed is
 	// multiplied by the generator's own increment); re-seeding from the first output decorrelates them
 	rng = hx.NewRng(rng.U64())
-	n, nReused := 1000, 350
+	n, nReused, nShared, nSharedReused := 1000, 350, 500, 120
 	if tier == "thorough" {
-		n, nReused = 40000, 8000
+		n, nReused, nShared, nSharedReused = 40000, 8000, 20000, 4000
 	}
 	defect := probeC20(res)
 	keeps := probeC20Keeps(res)
@@ -1234,6 +1262,7 @@ func runC20(res *hx.Result, rng *hx.Rng, tier string, outdir string) {
 		e.reusedDestination()
 	}
 	e.sameNameTypes()
+	e.sharedStorage(nShared, nSharedReused)
 	if tier == "thorough" {
 		exhaustiveC20(one)
 		res.Exhaustive = true
